@@ -60,9 +60,24 @@ def gen_case(rng, index, tier):
             loc = rng.choice(entries)['loc']
             dup = True
         kind = rng.choice(trashgen.PAYLOAD_KINDS)
-        e = trashgen.add_trashed(L, rng, tdir, 'n%d' % i, loc,
+        shown = None
+        if not dup and rng.random() < 0.15:
+            # a foreign .trashinfo whose Path goes through '<symlink>/..':
+            # the kernel resolves D/x/lk/../N to D/y/N, lexical normalisation
+            # to D/x/N
+            L.add({'p': D + '/y/sub', 't': 'd'})
+            L.add({'p': D + '/x', 't': 'd'})
+            if not any(nd['p'] == D + '/x/lk' for nd in L.nodes):
+                L.add({'p': D + '/x/lk', 't': 'l', 'to': '@/' + D + '/y/sub'})
+            base_nm = 'via-link-%d' % i
+            shown = D + '/x/lk/../' + base_nm
+            loc = D + '/y/' + base_nm
+        e = trashgen.add_trashed(L, rng, tdir, 'n%d' % i, shown or loc,
                                  '20%02d-01-0%dT10:00:00' % (10 + i, i + 1),
                                  kind, tag, volume_rel=volume, home=home)
+        if shown:
+            e['shown'] = shown
+            e['loc'] = loc
         dest = rng.choice(DEST) if not dup else \
             [x for x in entries if x['loc'] == loc][0]['dest']
         e['dest'] = dest
@@ -119,7 +134,8 @@ def run_case(case):
         index_of = {}
         for i, d, p in lst:
             index_of[(p, d)] = i
-        want_paths = [(w.abs(e['loc']), e['date'].replace('T', ' ')) for e in ents]
+        want_paths = [(w.abs(e.get('shown') or e['loc']), e['date'].replace('T', ' '))
+                      for e in ents]
         if sorted(index_of) != sorted(want_paths):
             out['verdict'] = 'inconclusive'
             out['why'] = 'listing does not show the crafted entries'
